@@ -15,7 +15,7 @@ import sys
 from .. import tlc
 
 ROOT = os.path.dirname(os.path.dirname(os.path.dirname(os.path.abspath(__file__))))
-INVS = ['PrimeOK', 'InvertOK', 'GcdextOK', 'SymbolOK', 'RootOK', 'FactorOK', 'RatrecOK']
+INVS = ['PrimeOK', 'InvertOK', 'GcdextOK', 'SymbolOK', 'RootOK', 'FactorOK', 'FactorBigOK', 'RatrecOK']
 
 
 def run(ctx):
@@ -24,7 +24,7 @@ def run(ctx):
         job = {'seed': ctx.seed, 'small': 25 if ctx.quick else 60, 'pair_bound': 300 if ctx.quick else 2000,
                'npairs': 1500 if ctx.quick else 15000, 'unary_bound': 1 << 15, 'unary_all': 400 if ctx.quick else 4000,
                'nunary': 600 if ctx.quick else 6000, 'ratrec_moduli': [101, 257, 1009] if ctx.quick else [101, 257, 1009, 2003, 32749],
-               'nratrec': 150 if ctx.quick else 1500}
+               'nratrec': 150 if ctx.quick else 1500, 'bigpow': 12 if ctx.quick else 30}
         jp, op = os.path.join(wd, 'job.json'), os.path.join(wd, 'ev.json')
         json.dump(job, open(jp, 'w'))
         try:
